@@ -10,6 +10,7 @@ import (
 	"net/http"
 	"os"
 	"path/filepath"
+	"strings"
 )
 
 // FSLoader supports the fs.FS interface for loading templates
@@ -24,6 +25,11 @@ func NewFSLoader(fs fs.FS) *FSLoader {
 }
 
 func (l *FSLoader) Abs(base, name string) string {
+	if strings.HasPrefix(name, "/") {
+		// A rooted name is looked up from the root of the file system (fs.FS paths
+		// have no leading slash), not next to the referring template
+		return strings.TrimPrefix(filepath.Clean(name), "/")
+	}
 	return filepath.Join(filepath.Dir(base), name)
 }
 
